@@ -7,9 +7,9 @@ Replay of C09 traces.
   through the pmm model and its oracles (`Firefly.Replay.Pmm.step`), so the Lean side always knows the
   allocator state the stress phase starts from and must end in.
 * `lk | b` — after every sequential call: was the allocator's lock left held (`1`)?
-* `round W ops yield procs p n1 n2 … | dup lost stuck totalsOk t total reserved free0 held drained
+* `round W ops yield procs p n1 n2 … o r1 r2 … | dup lost stuck totalsOk t total reserved free0 held drained
   c allocOk oom freeOk unmanagedOk foreign allocBad freeBad unmanagedBad panics cleanupBad` — one
-  multi-core stress phase.  The oracle recomputes the verdicts from the raw counters and from the
+  multi-core stress phase (`n_i`: frames of the i-th pool in memory-map order, `r_i`: its rank by address).  The oracle recomputes the verdicts from the raw counters and from the
   *model's* state at the start of the phase.
 -/
 namespace Firefly.Replay.C09
